@@ -1035,3 +1035,7 @@ mod tests {
         assert!(rx1.try_recv().is_err());
     }
 }
+
+#[cfg(kani)]
+#[path = "/verif/harness/may/sync_mpmc.rs"]
+mod verif_kani;
